@@ -214,10 +214,17 @@ func parseRaceLog(path string) []raceReport {
 			if i := strings.LastIndex(fn, "("); i > 0 {
 				fn = fn[:i]
 			}
-			if strings.HasPrefix(fn, libPrefix) && !strings.Contains(fn, "/verifhook.") {
+			// library frames: sub-packages ("…/gozxing/oned.f") and the root
+			// package ("…/gozxing.f"), never the scheduler hook
+			root := strings.TrimSuffix(libPrefix, "/") + "."
+			if (strings.HasPrefix(fn, libPrefix) || strings.HasPrefix(fn, root)) && !strings.Contains(fn, "/verifhook.") {
 				if !cur.Lib[sec] {
 					cur.Lib[sec] = true
-					cur.Frames[sec] = strings.TrimPrefix(fn, libPrefix)
+					if strings.HasPrefix(fn, root) {
+						cur.Frames[sec] = "gozxing." + strings.TrimPrefix(fn, root)
+					} else {
+						cur.Frames[sec] = strings.TrimPrefix(fn, libPrefix)
+					}
 				}
 			}
 			if len(cur.Text) < 1500 {
@@ -444,7 +451,7 @@ func judge(o *simOutcome, syncFree bool) (vs []verdict, harness string) {
 
 // ---------------------------------------------------------------- generation
 
-var opKinds = []string{"qr", "dm", "ean13", "ean8", "upca", "upce", "code39", "code93", "code128", "itf", "codabar", "qrmulti", "aztec", "rs", "bin", "eci", "eanext", "qrdmg", "dmdmg", "aztecgen", "qreci", "faint", "rssimg", "photo"}
+var opKinds = []string{"qr", "dm", "ean13", "ean8", "upca", "upce", "code39", "code93", "code128", "itf", "codabar", "qrmulti", "aztec", "rs", "bin", "eci", "eanext", "qrdmg", "dmdmg", "aztecgen", "qreci", "faint", "rssimg", "photo", "parentcrop"}
 
 func gen18(c *kit.Ctx, numSites int, syncFree bool) *Trace18 {
 	r := c.RNG
